@@ -18,11 +18,11 @@ PLANS = {
         "budget_s": {"quick": 55, "thorough": 900},
         "scenarios": [
             S("c02_sleep", 500, 20000),
-            S("c02_xfer", 700, 30000),
+            S("c02_xfer", 1200, 30000),
             S("c02_pending", 600, 25000),
             S("c02_dial", 400, 15000),
             S("c02_stream", 400, 15000),
-            S("c05_conc", 300, 10000, label="aiomon"),
+            S("c05_conc", 700, 10000, label="aiomon"),
             S("c02_reuse", 500, 15000),   # one aio reused across operation kinds: nothing leaks from one use to the next
             S("c02_many", 300, 6000),     # up to 260 deadlines in the same instant: none forgotten, none early
         ],
@@ -208,9 +208,9 @@ PLANS = {
                           "duplication, order and back-pressure bookkeeping was evaluated at the end of the run",
         "budget_s": {"quick": 50, "thorough": 900},
         "scenarios": [
-            S("c06_mesh", 900, 27000),
-            S("c06_bp", 900, 27000),
-            S("c06_churn", 600, 18000),
+            S("c06_mesh", 1400, 27000),
+            S("c06_bp", 1400, 27000),
+            S("c06_churn", 900, 18000),
         ],
         "assumptions": ["send order between two messages is only claimed when the call that submitted the first "
                         "(nng_sendmsg/nng_send/nng_socket_send) had returned before the call for the second was made; "
@@ -265,9 +265,9 @@ PLANS = {
                           "position of a small frame on nng's read side and/or write side)",
         "budget_s": {"quick": 50, "thorough": 900},
         "scenarios": [
-            S("c01_link", 1100, 33000),
-            S("c01_wire", 1300, 39000),
-            S("c01_cuts", 600, 18000),
+            S("c01_link", 1700, 33000),
+            S("c01_wire", 2000, 39000),
+            S("c01_cuts", 900, 18000),
         ],
         "assumptions": [
             "loss is not a violation ('or not at all'): it is counted (stats lost / probes c01_lost_no_fault, "
@@ -304,8 +304,8 @@ PLANS = {
         "scenarios": [
             # (the scenarios take an `avoid` bit mask, AV_* in scenarios/c16_codecs.cc, that steers the workload around
             # an open finding; every finding made so far has been repaired in the library, so no bit is set)
-            S("c16_ws_srv", 700, 21000),
-            S("c16_ws_cli", 700, 21000),
+            S("c16_ws_srv", 1500, 21000),
+            S("c16_ws_cli", 1500, 21000),
             S("c16_http_srv", 500, 15000),
             S("c16_http_cli", 500, 15000),
         ],
@@ -368,7 +368,7 @@ PLANS = {
             # (oracles unchanged; AV_* / SA_* in scenarios/c03_api.cc): clear a bit when the library has been repaired.
             # avoid 64 = one device at a time, 128 = one reply at a time per context of a cooked REP/RESPONDENT
             # socket, 256 = no udp transport
-            S("c03_api", 1500, 45000, label="avoid_known", avoid=320),
+            S("c03_api", 2500, 45000, label="avoid_known", avoid=320),
             # unrestricted workload: the known findings are re-observed here
             S("c03_api", 300, 9000),
             S("c03_msg", 400, 12000),
